@@ -15,13 +15,23 @@ class HandOverChooser:
         self.kind = kind
         self.active = False
         self.window = False
+        self.after = []             # further environment steps, each taken when the reacting thread has blocked again
 
     def __call__(self, world, en):
-        if self.active:
+        while self.active:
             for t in en:
                 if t.kind == self.kind:
                     return t
+            if self.after:
+                # the reacting thread has dealt with the fault and blocked: the next environment step of a two-step fault happens now
+                # (e.g. "the peer hangs up" ... "a new peer connects"), and the reacting thread runs again
+                self.after.pop(0)()
+                en = world.enabled()
+                if not en:
+                    break
+                continue
             self.active = False         # it has blocked: back to the default schedule
+        self.active = False
         return world.default_choice(en)
 
 
